@@ -291,6 +291,9 @@ RULE = ("every sequence (length <= 3 over all 28 operations; length <= 5 inside 
 from vmc.tables import _ROUND6 as _R6  # noqa: E402
 
 RULE += _R6["C21"]
+from vmc.tables import _ROUND7 as _R7  # noqa: E402
+
+RULE += _R7["C21"]
 
 
 
